@@ -1,6 +1,7 @@
 """C18 - unit suffixes scale by their SCPI multiplier; unknown suffixes are rejected."""
 import json, os
 from .. import facts, fdai, scpi_models as M, sym
+from . import contrib as CB_
 from ..fdai import EnumV, AggV, K, SymV, RefV, Cell, Loc, TOP, load, snapshot
 from ..report import VERIF
 from . import dispatch as D, convert as CV, contrib as CB
@@ -51,7 +52,7 @@ def suffix_paths(eng, body):
         lit = None
         ok = len(calls) == len(asg)
         for c, a in zip(calls, asg):
-            if "tok-DecimalNumericSuffixProgramData-1" not in repr(c.args):
+            if not CB_.holds(c.args, "tok-DecimalNumericSuffixProgramData-1"):
                 ok = False
             if a.args[1] is True:
                 lit = C_bytes(c.args)
@@ -203,7 +204,7 @@ def run(R, tier):
                 a0 = conv[0].args[0] if len(conv) == 1 else None
                 # the linear conversion must see the element as it came: number AND suffix (a token rebuilt from the
                 # number alone would be scaled as the base unit and would accept undefined suffixes)
-                whole = isinstance(a0, tuple) and len(a0) > 3 and a0[0] == "enum" and a0[2] == "DecimalNumericSuffixProgramData" and "tok-DecimalNumericSuffixProgramData-0" in repr(a0) and "tok-DecimalNumericSuffixProgramData-1" in repr(a0)
+                whole = isinstance(a0, tuple) and len(a0) > 3 and a0[0] == "enum" and a0[2] == "DecimalNumericSuffixProgramData" and CB_.holds(a0, "tok-DecimalNumericSuffixProgramData-0") and CB_.holds(a0, "tok-DecimalNumericSuffixProgramData-1")
                 if var == "Linear" and whole:
                     delegates = True
                 elif var == "Linear":
@@ -213,7 +214,7 @@ def run(R, tier):
             if unit is None or var != "Logarithmic":
                 continue
             conv = [e for e in r.trace if e.kind == "call" and e.name.endswith("TryFrom::try_from")]
-            num_ok = len(conv) == 1 and "tok-DecimalNumericSuffixProgramData-0" in repr(conv[0].args[0]) and "try_from" in repr(snapshot(v.fields[0].fields.get(0)))
+            num_ok = len(conv) == 1 and CB_.holds(conv[0].args[0], "tok-DecimalNumericSuffixProgramData-0") and "try_from" in repr(snapshot(v.fields[0].fields.get(0)))
             seen[lit.decode()] = (unit.split("::")[-1], num_ok, "one" in repr(newc.args[0]))
         for suf, (unit, num_ok, one) in sorted(seen.items()):
             n_db += 1
